@@ -7,7 +7,36 @@ def run(ck):
     ck.oblige("generated lock programs accepted by the verified checker for all %d public functions + %d thread mains" % (len(side.get("public", [])), len(side.get("thread_mains", []))), ok and not diag, "; ".join(d["what"] for d in diag[:3]))
     for d in diag[:5]:
         ck.violation("lock." + d["entry"] + "." + d["what"][:40], {"property": "C11", "failing_path": d, "note": "path found by the translator's mirror of the checker: the call chain leads to the function in which the lock sets disagree / the lock is leaked / the order is inverted; to observe it on the implementation, steer a call along this chain and inspect the locks held at return"}, no_input=True)
-    ck.coverage.update({"evaluations": side.get("contexts", 0), "distinct_nontrivial": len(side.get("nesting_pairs", [])),
+    # forced lock-granularity schedules on the real code (one process each, watchdog): a sender parked
+    # before its k-th mutex acquisition while another sender runs or while the receiver thread releases
+    # deferred traffic / lifts a stall; a schedule after which the calls do not return is a deadlock
+    import flowgen
+    from concurrent.futures import ThreadPoolExecutor
+    from vlib import hexs
+    exe = vlib.build_harness(wrap=("pthread_mutex_lock",))
+    ans = hexs(flowgen.frame(flowgen.upmsg([1], 1, 0x93, [1, 65, 1, 66])))
+    stall1 = hexs(flowgen.frame(flowgen.upmsg([1], 0, 0x8E, [1]))); stall0 = hexs(flowgen.frame(flowgen.upmsg([1], 0, 0x8E, [0])))
+    probes = []
+    for k in range(1, 7):
+        probes.append(["sched2 %d 1 0 0 7 01 1 0 0 7 02" % k])
+        probes.append(["send 1 0 0 22 01", "send 1 0 0 23 02", "flush", "schedrx %d 1 0 0 7 03 %s" % (k, ans)])
+        probes.append(["rx " + stall1, "send 1 0 0 7 05", "schedrx %d 1 0 0 7 06 %s" % (k, stall0)])
+        probes.append(["rx " + stall1, "send 1 2 0 7 05", "schedrx %d 2 0 0 7 06 %s" % (k, stall0)])
+    def one(body):
+        script = "\n".join(["start 1 - 0", "case p", "reset_nodes", "cap 0", "flush"] + body + ["flush", "mark done"]) + "\n"
+        rc, out, err = vlib.run_driver(exe, script, timeout=12)
+        return body, rc, out
+    with ThreadPoolExecutor(8) as ex:
+        res = list(ex.map(one, probes))
+    hung = 0
+    for body, rc, out in res:
+        if rc == -999 or "mark done" not in out:
+            hung += 1
+            ck.violation("deadlock.forced-schedule", {"property": "C11", "schedule": body, "driver_rc": rc, "observed": out[-400:],
+                         "meaning": "sched2 k A B: thread A parked before its k-th mutex acquisition while thread B submits; schedrx k A bytes: while the receiver thread processes the uplink bytes; the calls did not return within 12 s",
+                         "reason": "calls blocked forever under this schedule (deadlock)"})
+    ck.oblige("forced-schedule deadlock probe: %d schedules return" % len(probes), hung == 0, "%d hung" % hung)
+    ck.coverage.update({"evaluations": side.get("contexts", 0), "distinct_nontrivial": len(side.get("nesting_pairs", [])), "schedules_forced": len(probes),
                         "rule": "every function of src/**/*.c translated from the clang AST; every public function and internal thread checked context-sensitively from the empty lock set (evaluations = distinct (function, boolean arguments, held locks) contexts explored by the translator's mirror; distinct_nontrivial = distinct nested lock pairs observed)",
                         "samples": [{"nesting": x[:2], "via": x[2][-3:]} for x in side.get("nesting_pairs", [])[:6]],
                         "functions_translated": len(side.get("functions", [])), "locks": side.get("rank", {}), "exhaustive": True})
